@@ -146,7 +146,32 @@ def _chunks(items, n):
 _FN = None      # set in the parent before the workers are forked; closures need no pickling this way
 
 
+_LIMITED = False
+
+
+def _limit_memory():
+    """Address-space limit of a forked worker (default 12 GB, VERIF_WORKER_GB=0 disables): a case that allocates without
+    bound on a changed tree must end in a MemoryError inside its watchdog (a verdict about the case), not in the kernel
+    killing the worker (a harness error about nothing)."""
+    global _LIMITED
+    if _LIMITED:
+        return
+    _LIMITED = True
+    try:
+        import resource
+        gb = float(os.environ.get('VERIF_WORKER_GB', '12'))
+        if gb > 0:
+            soft, hard = resource.getrlimit(resource.RLIMIT_AS)
+            lim = int(gb * (1 << 30))
+            if hard != resource.RLIM_INFINITY:
+                lim = min(lim, hard)
+            resource.setrlimit(resource.RLIMIT_AS, (lim, hard))
+    except (ImportError, ValueError, OSError):
+        pass
+
+
 def _run_chunk(chunk):
+    _limit_memory()
     return _FN(chunk)
 
 
